@@ -40,9 +40,17 @@ type failWriter struct {
 	once   bool // transient fault: only the Write that crosses the limit fails, later ones succeed
 	silent bool // the failing Write (and every later one) accepts fewer bytes than given and reports no error
 	fullct bool // the failing Write (and every later one) reports the error together with the full count (a metering wrapper: _, err := inner.Write(p); return len(p), err)
+	eof    bool // the error the writer reports is io.EOF (a pipe whose reader has gone away with it)
 	got    bytes.Buffer
 	failed bool
 	calls  int
+}
+
+func (f *failWriter) err() error {
+	if f.eof {
+		return io.EOF
+	}
+	return errInjected
 }
 
 func (f *failWriter) Write(p []byte) (int, error) {
@@ -51,10 +59,10 @@ func (f *failWriter) Write(p []byte) (int, error) {
 		return 0, nil
 	}
 	if f.failed && f.fullct {
-		return len(p), errInjected
+		return len(p), f.err()
 	}
 	if f.failed && !f.once {
-		return 0, errInjected
+		return 0, f.err()
 	}
 	room := f.limit - f.got.Len()
 	if len(p) <= room || (f.failed && f.once) {
@@ -64,7 +72,7 @@ func (f *failWriter) Write(p []byte) (int, error) {
 	f.failed = true
 	if f.fullct {
 		f.got.Write(p[:max(room, 0)])
-		return len(p), errInjected
+		return len(p), f.err()
 	}
 	if f.silent {
 		f.got.Write(p[:max(room, 0)])
@@ -72,9 +80,9 @@ func (f *failWriter) Write(p []byte) (int, error) {
 	}
 	if f.short && room > 0 {
 		f.got.Write(p[:room])
-		return room, errInjected
+		return room, f.err()
 	}
-	return 0, errInjected
+	return 0, f.err()
 }
 
 // c12Proc is a node processor that changes nothing and fails at the failAt-th element (or
@@ -358,8 +366,8 @@ func (c *c12Case) runRenderer(ctx *core.Ctx) {
 	}
 	n := ref.Len()
 	for k := 0; k < n; k++ {
-		for style := 0; style < 5; style++ {
-			fw := &failWriter{limit: k, short: style == 1, once: style == 2, silent: style == 3, fullct: style == 4}
+		for style := 0; style < 7; style++ {
+			fw := &failWriter{limit: k, short: style == 1 || style == 6, once: style == 2, silent: style == 3, fullct: style == 4, eof: style >= 5}
 			ctx.Eval(1)
 			err := vuego.NewRenderer().Render(bg, fw, nodes)
 			if !fw.failed {
@@ -371,7 +379,7 @@ func (c *c12Case) runRenderer(ctx *core.Ctx) {
 				return
 			}
 			if err == nil {
-				ctx.Violation("writer-failure-swallowed", "renderer", []string{"refuse", "short-write", "transient", "short-write-without-error", "error-with-full-count"}[style], fmt.Sprintf("Renderer.Render on the nodes of %s: writer failed at offset %d of %d but Render returned nil", c.Prog, k, n))
+				ctx.Violation("writer-failure-swallowed", "renderer", []string{"refuse", "short-write", "transient", "short-write-without-error", "error-with-full-count", "refuse-with-eof", "short-write-with-eof"}[style], fmt.Sprintf("Renderer.Render on the nodes of %s: writer failed at offset %d of %d but Render returned nil", c.Prog, k, n))
 				return
 			}
 		}
@@ -448,9 +456,9 @@ func (c *c12Case) Run(ctx *core.Ctx) {
 			continue
 		}
 		offsets++
-		for style := 0; style < 5; style++ {
-			short := style == 1
-			fw := &failWriter{limit: k, short: short, once: style == 2, silent: style == 3, fullct: style == 4}
+		for style := 0; style < 7; style++ {
+			short := style == 1 || style == 6
+			fw := &failWriter{limit: k, short: short, once: style == 2, silent: style == 3, fullct: style == 4, eof: style >= 5}
 			ctx.Eval(2)
 			var dest io.Writer = fw
 			if k%2 == 1 {
@@ -485,6 +493,9 @@ func (c *c12Case) Run(ctx *core.Ctx) {
 				if fw.fullct {
 					style = "error-with-full-count"
 				}
+				if fw.eof {
+					style += "-with-eof"
+				}
 				ctx.Violation("writer-failure-swallowed", where, style, fmt.Sprintf("program %s: writer failed at offset %d of %d (%s) but the render returned nil", c.Prog, k, n, style))
 				return
 			}
@@ -507,7 +518,7 @@ func init() {
 	core.Register(&core.Check{
 		ID:    "C12",
 		Level: "fault_enumeration",
-		Rule: "every catalogue program (25 succeeding, 6 failing early/late/in include/in layout) x entry point {Load+Render, RenderFile, RenderString, RenderByte, RenderReader} x fault {none, cancelled context, writer failing at EVERY byte offset 0..len(output)-1 in five styles: refusing the write and every later one, short write + error, refusing that one write only (a transient fault), accepting fewer bytes than given without reporting an error, reporting the error together with the full byte count (a metering wrapper); every other offset through a writer that also implements io.StringWriter}; plus, for the succeeding programs, a registered node processor that changes nothing and fails at EVERY node position of the DOM it is shown (post-processing and pre-processing), which must give an error and 0 bytes; plus a context that is cancelled while the render runs - when the writer receives its k-th byte, for every k, and when the j-th file is opened, for every j - after which the call must still be all or nothing; plus the exported serialiser (NewRenderer().Render) on the nodes of every succeeding program with the writer failing at every offset in the same five styles. " +
+		Rule: "every catalogue program (25 succeeding, 6 failing early/late/in include/in layout) x entry point {Load+Render, RenderFile, RenderString, RenderByte, RenderReader} x fault {none, cancelled context, writer failing at EVERY byte offset 0..len(output)-1 in seven styles: refusing the write and every later one, short write + error, refusing that one write only (a transient fault), accepting fewer bytes than given without reporting an error, reporting the error together with the full byte count (a metering wrapper), refusing / short write with io.EOF as the writer's error (a pipe whose reader went away); every other offset through a writer that also implements io.StringWriter}; plus, for the succeeding programs, a registered node processor that changes nothing and fails at EVERY node position of the DOM it is shown (post-processing and pre-processing), which must give an error and 0 bytes; plus a context that is cancelled while the render runs - when the writer receives its k-th byte, for every k, and when the j-th file is opened, for every j - after which the call must still be all or nothing; plus the exported serialiser (NewRenderer().Render) on the nodes of every succeeding program with the writer failing at every offset in the same seven styles. " +
 			"oracle: healthy writer: error => 0 bytes received, nil => exactly the reference bytes; failing writer: non-nil error, the bytes it accepted are a prefix of the reference, and the next healthy render on the same long-lived engine returns exactly the reference bytes; cancelled context: error and 0 bytes. non-trivial = all; distinct = (program, entry point)",
 		Bounds:      map[string]string{"quick": "all offsets of all programs; for the two programs with more than 4096 bytes of output the first and last 512 offsets and every 97th in between", "thorough": "all offsets of all programs"},
 		Assumptions: []string{"a writer that accepts fewer bytes than given without an error breaks io.Writer's contract; the render must still report it (io.ErrShortWrite)"},
